@@ -193,13 +193,6 @@ theorem padEdges_min_window (ys : List Rat) (pad wl wr : Nat) (hn : 2 ≤ ys.len
   unfold padEdges getEdges
   simp only [ht, hd, c1, c2]
 
-/-- where the value at output position `k` comes from when the data are a line: itself, except
-on a side whose effective window `min w n` is one point, where it is the edge position -/
-def clampIdx (pad n wl wr k : Nat) : Nat :=
-  if k < pad then (if min wl n = 1 then pad else k)
-  else if pad + n ≤ k then (if min wr n = 1 then pad + n - 1 else k)
-  else k
-
 theorem clampIdx_id (pad n wl wr k : Nat) (hn : 2 ≤ n) (hwl : 2 ≤ wl) (hwr : 2 ≤ wr) : clampIdx pad n wl wr k = k := by
   have h1 : min wl n ≠ 1 := by omega
   have h2 : min wr n ≠ 1 := by omega
